@@ -189,3 +189,89 @@ pub(crate) fn mk_frame(chunks: &[Vec<u8>], duration: u16, old_count: u16, new_co
     }
     v
 }
+
+// ---------------------------------------------------------------------------------------------------------
+// Native replays run WITHOUT stubs (Kani's concrete playback ignores #[kani::stub]). Harnesses that feed the
+// identity model of `unzip` therefore wrap their payload into a real (stored-block) zlib stream when they are
+// not running under the stub, so that a replayed counterexample exercises the real inflater on the same bytes.
+pub(crate) fn stubs_probe() -> bool {
+    false
+}
+pub(crate) fn stubs_probe_stubbed() -> bool {
+    true
+}
+fn adler32(data: &[u8]) -> u32 {
+    let (mut a, mut b) = (1u32, 0u32);
+    for &d in data {
+        a = (a + d as u32) % 65521;
+        b = (b + a) % 65521;
+    }
+    (b << 16) | a
+}
+/// zlib stream with one stored (uncompressed) deflate block; only ever executed natively
+pub(crate) fn zlib_stored(data: &[u8]) -> Vec<u8> {
+    let mut v = vec![0x78, 0x01, 0x01];
+    let n = data.len() as u16;
+    v.push(n as u8);
+    v.push((n >> 8) as u8);
+    v.push(!n as u8);
+    v.push((!n >> 8) as u8);
+    v.extend_from_slice(data);
+    let ad = adler32(data);
+    v.push((ad >> 24) as u8);
+    v.push((ad >> 16) as u8);
+    v.push((ad >> 8) as u8);
+    v.push(ad as u8);
+    v
+}
+/// payload for a "compressed" field: the bytes themselves under the identity stub, a real zlib stream natively.
+/// Harnesses using it must carry #[kani::stub(crate::vklib::stubs_probe, crate::vklib::stubs_probe_stubbed)].
+pub(crate) fn compressed_payload(data: &[u8]) -> Vec<u8> {
+    if stubs_probe() {
+        data.to_vec()
+    } else {
+        zlib_stored(data)
+    }
+}
+
+static STUB_ENTRY: std::sync::OnceLock<ColorPaletteEntry> = std::sync::OnceLock::new();
+/// Stub for `ColorPalette::color`: every index is present (one shared entry). For harnesses that need palette
+/// membership to succeed but do not look at the colour.
+pub(crate) fn stub_color_some(_s: &ColorPalette, _i: u32) -> Option<&ColorPaletteEntry> {
+    Some(STUB_ENTRY.get_or_init(|| crate::palette::vkl::mk_entry(0, [0, 0, 0, 0])))
+}
+
+// ---------------------------------------------------------------------------------------------------------
+// One-tileset sprites: `TilesetsById::get` answered from a harness-owned static (id match => that tileset, else
+// None), which is exactly what a one-entry map answers, without hashbrown's probing loops.
+static mut STATIC_TS: Option<Tileset<crate::pixel::Pixels>> = None;
+static mut STATIC_TS_ID: u32 = 0;
+pub(crate) fn set_static_tileset(id: u32, ts: Tileset<crate::pixel::Pixels>) {
+    unsafe {
+        STATIC_TS_ID = id;
+        STATIC_TS = Some(ts);
+    }
+}
+pub(crate) fn stub_tilesets_get_static<P>(_s: &TilesetsById<P>, id: u32) -> Option<&Tileset<P>> {
+    unsafe {
+        if id == STATIC_TS_ID {
+            #[allow(static_mut_refs)]
+            let r: Option<&Tileset<crate::pixel::Pixels>> = STATIC_TS.as_ref();
+            core::mem::transmute::<Option<&Tileset<crate::pixel::Pixels>>, Option<&Tileset<P>>>(r)
+        } else {
+            None
+        }
+    }
+}
+pub(crate) fn mk_tileset(id: u32, tile_count: u32, tw: u16, th: u16, pixels: Vec<image::Rgba<u8>>) -> Tileset<crate::pixel::Pixels> {
+    Tileset {
+        id,
+        empty_tile_is_id_zero: true,
+        tile_count,
+        tile_size: crate::tileset::vkl::mk_tile_size(tw, th),
+        base_index: 1,
+        name: String::new(),
+        external_file: None,
+        pixels: Some(crate::pixel::Pixels::Rgba(pixels)),
+    }
+}
